@@ -406,7 +406,7 @@ class ArrayType(TypeBase):
 
     @staticmethod
     def parse_dimension(dim):
-        parts = ":".split(dim)
+        parts = dim.split(":")
 
         if len(parts) == 1:
             return ("1", dim)
